@@ -125,6 +125,18 @@ per_count("rmnsec", counts_quick=(0, 1, 2), counts_thorough=(0, 1, 2, 3), entry=
 per_count("rmtsec", counts_quick=(0, 1, 2), counts_thorough=(0, 1, 2, 3), entry="h_rmtsec", func="cfg_opt_rmtsec", harness="harness/sections.c",
           cbmc=unw(8), label=SECTXT, props=["C09", "C10", "C07", "C02"], cost=30, **SECC)
 
+# ------------------------------------------------------------------ grammar (cfg_parse_internal)
+PARSEC = dict(remove=["cfg_getopt", "cfg_setopt", "cfg_addopt", "cfg_addval", "call_function", "cfg_free_value", "cfg_opt_setcomment"],
+              carriers=["carriers/parse_carriers.c"], harness="harness/parse_step.c", func="cfg_parse_internal")
+U("parse_step", entry="h_parse_step", cbmc=unw(6) + NOOOM + LEAK, defs={"quick": []},
+  label="proof* (hand-applied invariant rule, DESIGN 5.C01: any state, any token, any flags/verdicts; strings <= 2 bytes only for the copied token text)",
+  props=["C01", "C06", "C07", "C12", "C14", "C15", "C18", "C02", "C13", "C17"], cost=60, **PARSEC)
+U("parse_step_args", entry="h_parse_step", cbmc=unw(6) + NOOOM + LEAK, defs={"quick": ["-DCFGV_STEP_ARGS_LEAK_CASE"]},
+  label="proof* (same step, restricted to states 8/9 with collected call arguments: finding unit)",
+  props=["C07", "C14"], cost=30, **PARSEC)
+U("parse_base", entry="h_parse_base", cbmc=unw(6) + NOOOM, defs={"quick": []}, expect_canary=False,
+  label="proof (loop-free: entry to first loop head)", props=["C01", "C02", "C12"], cost=10, **PARSEC)
+
 # ------------------------------------------------------------------ per-property text for MANIFEST / evidence
 HOOK_COMMITS = []
 NOT_APPLICABLE = {}
